@@ -173,7 +173,7 @@ func VerifC19Update() {
 		m.set(c, v+1)
 		vCheckBSI(b, m, "post")
 		// the caller's found-set stays the caller's: changing it later must not change the index
-		fs.Add(uint32((vsym.Param("cb"))+3))
+		fs.Add(uint32((vsym.Param("cb")) + 3))
 		fs.Remove(uint32(c))
 	case 9:
 		o, mo := vGenBSIAt(1, vsym.Param("w2"), 2)
